@@ -157,6 +157,9 @@ func (g *G) genBody(f *am.Fun) {
 	for i, s := range st.sk {
 		for _, t := range s.succs {
 			st.sk[t].preds = append(st.sk[t].preds, i)
+			if t <= i {
+				g.feat("cfg/back-edge")
+			}
 		}
 	}
 	st.computeDom(n)
